@@ -5,11 +5,16 @@ RULE = ("one private cycle per (kind V/W/F) x (plain / extrapolated) x (2..5 lev
         "GMGPolarVerif friend with every scratch vector filled with garbage; the logged instruction trace must equal the model "
         "program token for token; numeric oracles on the implementation: right-hand side untouched, a cycle started from the exact "
         "discrete solution returns it, two levels without smoothing equal u + P A_c^-1 R (f - A u) (plain) and the extrapolated "
-        "combination built from the public operators.  Distinct by (kind, extrap, L, nu1, nu2, fgs)")
+        "combination built from the public operators, and every cycle against the textbook correction scheme composed from the public "
+        "operators; the WHOLE cycle executed inside the model (control-flow IR over the code-level models, IEEE double; exact rationals "
+        "for the smallest cases) against the real cycle on 2- and 3-level hierarchies.  Distinct by (kind, extrap, L, nu1, nu2, fgs)")
 
 
 def run(ctx):
     ctx.prove()
     h = ctx.build_harness("h_solver")
     ctx.pipe([h, "cycle", "2" if ctx.tier == "quick" else "12"], "trace", label="cycle-traces")
-    ctx.assumptions += ["numerical behaviour of each instruction is tied separately (C03 residual, C04 direct solve, C06/C07 smoothers, C08 transfers)"]
+    # the whole cycle inside the model (GMGModel/Concrete.lean: the control-flow IR interpreted over the code-level models of
+    # smoothers, residual, transfers, direct solver) against the real private cycle on 2- and 3-level hierarchies
+    ctx.pipe([h, "concrete", "9" if ctx.tier == "quick" else "60"], "concrete", label="whole-cycle-in-the-model")
+    ctx.assumptions += ["numerical behaviour of each instruction is tied separately (C03 residual, C04 direct solve, C06/C07 smoothers, C08 transfers) and, composed, by the whole-cycle stage"]
